@@ -426,7 +426,8 @@ def stage2_batch(verif_seed, tier, b, ncases):
                'depth': rng.choice([2, 3, 3]), 'tmax': rng.choice([2, 3, 3]),
                'pconst': rng.choice([0.1, 0.3, 0.45]),
                'fair': logic != 'LTL' and rng.random() < 0.2,
-               'uniform_loops': rng.random() < 0.6}
+               'uniform_loops': rng.random() < 0.6,
+               'fairfriendly': rng.random() < 0.5}
         case = c06.gen_case(rng, cfg)
         amap = None
         if rng.random() < 0.5:
